@@ -143,11 +143,18 @@ def compile_run(ctx, want):
 def roles_run(ctx):
     """C09: role / multiplicity columns of generated programs, real vs model, + balance oracle."""
     tier, seed, work = ctx["tier"], ctx["seed"], ctx["work"]
+    import c09n
+    npo_replay = None
     if ctx.get("replay"):
         rp = json.load(open(ctx["replay"]))
-        os.makedirs(f"{work}/replay_corpus", exist_ok=True)
-        json.dump(rp.get("replay", rp), open(f"{work}/replay_corpus/r.json", "w"))
-        runs = [dict(programs=0, max_calls=10, corpus=f"{work}/replay_corpus")]
+        rp = rp.get("replay", rp)
+        if "npo_program" in rp:
+            npo_replay = rp   # a circuit with non-primitive ops: replayed through the bus audit only
+            runs = []
+        else:
+            os.makedirs(f"{work}/replay_corpus", exist_ok=True)
+            json.dump(rp, open(f"{work}/replay_corpus/r.json", "w"))
+            runs = [dict(programs=0, max_calls=10, corpus=f"{work}/replay_corpus")]
     elif tier == "quick":
         runs = [dict(programs=5000, max_calls=30, corpus=f"{ctx['root']}/corpus/compile"),
                 dict(programs=400, max_calls=150, corpus=f"{ctx['root']}/corpus/roles")]
@@ -191,11 +198,27 @@ def roles_run(ctx):
                                "replay": {"correspondence": "generate_preprocessed_columns + common.rs conversion vs lean/P3R/Model/Roles",
                                           "case_block": case, "first_difference": first},
                                "no_input": True})
+    # non-primitive ops: bus audit of the real AIRs (+ honest prove/verify sample, + extended role model)
+    npo_cov = {}
+    if npo_replay is not None or not ctx.get("replay"):
+        nv, npo_cov = c09n.run(ctx, npo_replay)
+        violations += nv
+        programs += npo_cov.get("busaudit_programs", 0); distinct += npo_cov.get("busaudit_distinct", 0)
+        blocks += npo_cov.get("busaudit_blocks_compared_with_model", 0)
+        disagreements += npo_cov.get("busaudit_model_disagreements", 0)
+        for k, v in npo_cov.get("busaudit_hist", {}).items():
+            hist["npo." + k] = v
     cov = {"evaluations": programs, "programs": programs, "distinct_nontrivial": distinct,
            "rule": "random builder programs (as C02) compiled by the real builder; every preprocessed role / multiplicity "
-                   "cell and the per-slot net multiplicity compared with the Lean model; distinct = distinct program texts",
+                   "cell and the per-slot net multiplicity compared with the Lean model; distinct = distinct program texts; "
+                   "plus generated circuits mixing primitive ops with Poseidon2 permutation rows (sponge / Merkle, D=4 generic and "
+                   "D=1 compact layouts) and recompose rows (with / without coefficient lookups): every WitnessChecks interaction "
+                   "of every row of every real table AIR evaluated and audited per slot (harness/src/c09n.rs), a sample proved and verified",
            "samples": samples[:2], "input_distribution": hist,
            "traces_validated_against_impl": blocks, "disagreements_checked": disagreements}
+    for k in ("busaudit_class_counts", "busaudit_samples", "busaudit_proved", "busaudit_prove_notes"):
+        if k in npo_cov:
+            cov[k] = npo_cov[k]
     return violations, cov
 
 
@@ -222,10 +245,19 @@ CHECKS = {
     },
     "C09": {
         "lean_modules": ["P3R.Props.C09"],
+        "lean_exes": ["p3r_driver_c09n"],
         "theorems": ["P3R.C09.one_creator", "P3R.C09.mult_eq_reads", "P3R.C09.created_iff_defined",
-                     "P3R.C09.net_zero_iff", "P3R.C09.bus_balanced"],
+                     "P3R.C09.net_zero_iff", "P3R.C09.bus_balanced",
+                     # the same invariant for the scan extended with table-backed non-primitive rows (generic row kind)
+                     "P3R.C09.scanR_inv", "P3R.C09.one_creator_npo", "P3R.C09.mult_eq_reads_npo", "P3R.C09.net_zero_iff_npo"],
         "run": roles_run,
-        "trusted_base": ["table-backed non-primitive ops (Poseidon, recompose) are outside the role model: their preprocess hooks are not modelled"],
+        "trusted_base": ["non-primitive rows: the theorems cover the role scan of generate_preprocessed_columns for ANY per-plug-in request function; "
+                         "the concrete request functions (posRow / recRow / sumExposed: Poseidon2 sponge + arity-2/arity-4 Merkle rows, recompose with / without "
+                         "coefficient lookups) and the plug-in conversions (npoMult / freeMult: dup_npo_outputs, recompose/coeff sends) are tied to the real code "
+                         "by the per-slot comparison with the bus audit of the real AIRs on every generated circuit; the conversions are NOT covered by the "
+                         "invariant (they break it: F-C09N-1, F-C09N-3)",
+                         "bus audit (harness/src/c09n.rs): symbolic evaluation of the real AIRs by p3_lookup::InteractionSymbolicBuilder, resolved row by row on "
+                         "the AIRs' own preprocessed traces; op -> row attribution assumes lanes = 1 for the non-primitive tables (TablePacking::new(1,1))"],
         "assumptions": ["extension degree D and lane count do not enter the role logic (indices are scaled by D, lanes only reshape rows); runs use D=1, lanes 1..3"],
     },
     "C03": {
